@@ -2,7 +2,8 @@
    F20c  a segment delivers the end of a CHUNKED request body together with bytes of the next request
          (only possible when the next request is sent while an already-answered request's body is
          still being discarded): the chunked reader's read-ahead swallows those bytes;
-   F21   a request whose body is malformed or cut short is answered although the error never reaches the
+   F21   (REPAIRED, dc753b5: the connection is closed after the response; nothing pinned depends on [known_F21] any more)
+         a request whose body is malformed or cut short is answered although the error never reaches the
          server (the handler or hook ignores the body, reads only part of it, or swallows the read error):
          the failed discard of the rest goes unnoticed and the connection is kept.
    Both are computed from the sequential interpretation of the stream (Spec/ConnSpec.v). *)
